@@ -14,7 +14,7 @@ from typing import (
     overload,
 )
 
-from apischema.cache import CacheAwareDict
+from apischema.cache import CacheAwareDict, reset
 from apischema.objects.fields import check_field_or_name, get_field_name
 
 _dependent_requireds: MutableMapping[
@@ -75,3 +75,4 @@ def dependent_required(*groups: Collection[Any], owner: Optional[type] = None): 
             for i, field in enumerate(group):
                 check_field_or_name(field)
                 dep_req.append((field, [group[:i], group[i:]]))
+        reset()  # in-place modification doesn't go through CacheAwareDict.__setitem__
